@@ -1,5 +1,5 @@
 (* C10 proofs, part A: object hard constraints over Q (amplitude clamp, unit amplitude, positivity,
-   slice tying, FOV mask as written, idempotence of the amplitude; tomography clamp/shrinkage). *)
+   slice tying, FOV mask (repaired), idempotence of the amplitude; tomography clamp/shrinkage). *)
 From QV.lib Require Import Prelude C10_Cplx.
 From QV.model Require Import C10_Model.
 From Coq Require Import QArith Lqa.
@@ -78,41 +78,31 @@ Proof.
 Qed.
 
 (* ---------------------------------------------------------------- pure phase *)
+(* amplitude exactly one: every configuration, every mask (applied or not, any values) *)
 Theorem pure_phase_amp_eq_1 : forall cfg mask obj,
-  mask_unit cfg mask ->
   Forall (Forall (fun p : polar => fst p == 1)) (hard_polar PurePhase cfg mask obj).
 Proof.
-  intros cfg mask obj Hm. unfold hard_polar.
+  intros cfg mask obj. unfold hard_polar.
   apply Forall_forall. intros sl Hsl. apply in_map_iff in Hsl. destruct Hsl as [sl0 [E _]]. subst sl.
-  apply (map_mask_Forall (fun m => m == 1)).
-  - exact Hm.
+  apply (map_mask_Forall (fun _ => True)).
+  - destruct (use_mask cfg mask); [|exact I]. apply Forall_forall. intros; exact I.
   - intros x. cbn [polar_pixel fst]. reflexivity.
-  - intros m x Hm0. cbn [polar_pixel fst]. rewrite Hm0. ring.
+  - intros m x _. cbn [polar_pixel fst]. reflexivity.
 Qed.
 
-(* what the code does with a mask: amplitude = mask^2 *)
-Lemma pure_phase_pixel_masked mean_ph m p : fst (polar_pixel PurePhase mean_ph (Some m) p) == m * m.
-Proof. cbn [polar_pixel fst]. ring. Qed.
+(* the mask acts on the phase of a pure-phase pixel *)
+Lemma pure_phase_pixel_masked mean_ph m p :
+  polar_pixel PurePhase mean_ph (Some m) p = (1, (snd p - mean_ph) * m).
+Proof. reflexivity. Qed.
 
-(* the statement at full strength (every FOV mask in [0,1]) — false for the code as written *)
-Definition pure_phase_amp_statement : Prop :=
-  forall cfg mask obj, mask_in_01 mask ->
-    Forall (Forall (fun p : polar => fst p == 1)) (hard_polar PurePhase cfg mask obj).
+(* the code before the repair: amplitude = mask^2 *)
+Lemma pure_phase_pixel_unrepaired mean_ph m p :
+  fst (polar_pixel_unrepaired PurePhase mean_ph (Some m) p) == m * m.
+Proof. cbn [polar_pixel_unrepaired fst]. ring. Qed.
 
 Definition cfg_masked : ocfg :=
   {| positivity := true; fix_baseline := false; baseline_factor := 1; identical_slices := false;
      apply_fov_mask := true |}.
-
-Lemma pure_phase_amp_refuted : ~ pure_phase_amp_statement.
-Proof.
-  intros H.
-  specialize (H cfg_masked (Some [1 # 2]) [[(1, 0)]]).
-  assert (Hm : mask_in_01 (Some [1 # 2])).
-  { cbn. constructor; [|constructor]. split; [apply Qle_bool_iff | apply Qle_bool_iff]; reflexivity. }
-  specialize (H Hm). vm_compute in H.
-  inversion H as [|? ? H1 _]; subst. inversion H1 as [|? ? H2 _]; subst.
-  vm_compute in H2. discriminate H2.
-Qed.
 
 (* ---------------------------------------------------------------- potential: positivity *)
 Lemma qzip_add_nonneg a b : Forall (fun x => 0 <= x) a -> Forall (fun x => 0 <= x) b ->
@@ -230,38 +220,40 @@ Proof.
 Qed.
 
 (* re-applying the constraint to an object whose amplitudes are those of a constrained object
-   (whatever its phases: torch.angle wraps them) leaves the amplitudes unchanged — when the mask
-   is not applied or is identically one, and for pure-phase objects under any mask *)
+   (whatever its phases: torch.angle wraps them) leaves the amplitudes unchanged — for pure-phase
+   objects under any mask, and for complex objects when the mask is not applied or is binary *)
 Theorem hard_idempotent_amp : forall ty cfg mask obj obj2,
-  is_wave ty -> mask_in_01 mask -> (ty = PurePhase \/ mask_unit cfg mask) ->
+  is_wave ty -> (ty = PurePhase \/ mask_binary cfg mask) ->
   amps_eq (amps obj2) (amps (hard_polar ty cfg mask obj)) ->
   amps_eq (amps (hard_polar ty cfg mask obj2)) (amps (hard_polar ty cfg mask obj)).
 Proof.
-  intros ty cfg mask obj obj2 Hty Hm01 Hdom. unfold amps_eq, amps, hard_polar.
+  intros ty cfg mask obj obj2 Hty Hdom. unfold amps_eq, amps, hard_polar.
   set (mp := qmean (concat (map (map snd) obj))). set (mp2 := qmean (concat (map (map snd) obj2))).
   clearbody mp mp2. revert obj2.
   induction obj as [|sl obj IH]; intros obj2 H; cbn [map] in *.
   - destruct obj2; [constructor | inversion H].
   - destruct obj2 as [|sl2 obj2]; [inversion H|]. cbn [map] in *.
     inversion H as [|? ? ? ? H1 H2]; subst. constructor; [|apply IH; exact H2].
-    destruct Hdom as [Hpp | Hunit].
+    destruct Hdom as [Hpp | Hbin].
     + subst ty. apply (map_mask_reapply _ _ (fun _ => True)).
       * destruct (use_mask cfg mask); [|exact I]. apply Forall_forall. intros; exact I.
       * intros x y _. cbn [polar_pixel fst]. reflexivity.
       * intros m x y _ _. cbn [polar_pixel fst]. reflexivity.
       * exact H1.
-    + apply (map_mask_reapply _ _ (fun m => m == 1)).
-      * exact Hunit.
+    + apply (map_mask_reapply _ _ (fun m => m == 0 \/ m == 1)).
+      * exact Hbin.
       * intros x y Hy. destruct Hty as [-> | ->]; cbn [polar_pixel fst] in *; [|reflexivity].
         rewrite (qclamp_01_compat _ _ Hy). apply qclamp_01_idem.
       * intros m x y Hm1 Hy. destruct Hty as [-> | ->]; cbn [polar_pixel fst] in *; [|reflexivity].
-        rewrite Hm1 in *. assert (Hy' : fst y == qclamp (fst x) 0 1) by (rewrite Hy; ring).
-        rewrite (qclamp_01_compat _ _ Hy'), qclamp_01_idem. reflexivity.
+        destruct Hm1 as [Hm0 | Hm1].
+        -- rewrite Hm0. ring.
+        -- rewrite Hm1 in *. assert (Hy' : fst y == qclamp (fst x) 0 1) by (rewrite Hy; ring).
+           rewrite (qclamp_01_compat _ _ Hy'), qclamp_01_idem. reflexivity.
       * exact H1.
 Qed.
 
-(* the same at full strength (any FOV mask in [0,1]) is false for complex objects: the mask is
-   multiplied in again on every application *)
+(* the same at full strength (any FOV mask in [0,1]) is false for complex objects: a fractional
+   mask value is multiplied into the amplitude again on every application *)
 Definition hard_idempotent_amp_statement : Prop :=
   forall ty cfg mask obj obj2,
     is_wave ty -> mask_in_01 mask ->
@@ -271,21 +263,21 @@ Definition hard_idempotent_amp_statement : Prop :=
 Lemma hard_idempotent_amp_refuted : ~ hard_idempotent_amp_statement.
 Proof.
   intros H.
-  specialize (H Complex cfg_masked (Some [1 # 2]) [[(1, 0)]] [[(1 # 4, 0)]]).
+  specialize (H Complex cfg_masked (Some [1 # 2]) [[(1, 0)]] [[(1 # 2, 0)]]).
   assert (Hm : mask_in_01 (Some [1 # 2])).
   { cbn. constructor; [|constructor]. split; apply Qle_bool_iff; reflexivity. }
   specialize (H (or_introl eq_refl) Hm).
-  assert (H0 : amps_eq (amps [[(1 # 4, 0)]]) (amps (hard_polar Complex cfg_masked (Some [1 # 2]) [[(1, 0)]]))).
+  assert (H0 : amps_eq (amps [[(1 # 2, 0)]]) (amps (hard_polar Complex cfg_masked (Some [1 # 2]) [[(1, 0)]]))).
   { vm_compute. repeat constructor. }
   specialize (H H0). vm_compute in H.
   inversion H as [|? ? ? ? H1 _]; subst. inversion H1 as [|? ? ? ? H2 _]; subst.
   vm_compute in H2. discriminate H2.
 Qed.
 
-(* what the code does with a mask on a complex pixel: amplitude = clamp(a) * mask^2 *)
+(* a mask on a complex pixel: amplitude = clamp(a) * mask, phase = (phi - mean) * mask *)
 Lemma complex_pixel_masked mean_ph m p :
-  fst (polar_pixel Complex mean_ph (Some m) p) == qclamp (fst p) 0 1 * (m * m).
-Proof. cbn [polar_pixel fst]. ring. Qed.
+  fst (polar_pixel Complex mean_ph (Some m) p) == qclamp (fst p) 0 1 * m.
+Proof. cbn [polar_pixel fst]. reflexivity. Qed.
 
 (* ---------------------------------------------------------------- tomography *)
 Theorem tomo_nonneg : forall pos shrink obj,
